@@ -196,6 +196,7 @@ class Built:
         self.all_nodes: List[Node] = []
         self.durs: Dict[str, Any] = {}
         self.share_links = False
+        self.dur_pool = 0
         self.top = None
         self.registry = DurationRegistry()
         self.reg_keys: List[str] = []
@@ -220,24 +221,31 @@ def _mk_relation(node: Node, siblings: List[Node], cache: Optional[dict] = None)
     return RelationLink(siblings[idx].obj, REL[t])
 
 
+def _dur_name(node: Node, built: 'Built') -> str:
+    # optionally draw durations from a small pool of symbolic values (fewer dimensions -> fewer orderings) instead of one per step
+    if built.dur_pool:
+        return f"d_pool{sum((i + 1) * (p + 1) for i, p in enumerate(node.path)) % built.dur_pool}"
+    return 'd_' + node.label().replace('.', '_')
+
+
 def _make_leaf(ctx, node: Node, circuit: DeclarativeCircuit, relation, built: Built):
     k = node.kind
     kw = {}
     if relation is not None:
         kw['relation'] = relation
     if k[0] == 'W':
-        node.dur = ctx.real('d_' + node.label().replace('.', '_'), lo=0, reuse=True)
+        node.dur = ctx.real(_dur_name(node, built), lo=0, reuse=True)
         built.durs[node.label()] = node.dur
         return co.Wait(k[1], qubit_channel=CH[k[2]], duration_strategy=FixedDurationStrategy(node.dur), **kw)
     if k[0] == 'V':
-        node.dur = ctx.real('d_' + node.label().replace('.', '_'), lo=0, reuse=True)
+        node.dur = ctx.real(_dur_name(node, built), lo=0, reuse=True)
         built.durs[node.label()] = node.dur
         cls = getattr(co, k[1])
         if k[1] == 'SingleQubitOperation':
             return cls(k[2], duration_strategy=FixedDurationStrategy(node.dur), **kw)
         return cls(k[2], qubit_channel=CH[k[3]], duration_strategy=FixedDurationStrategy(node.dur), **kw)
     if k[0] == 'T':
-        node.dur = ctx.real('d_' + node.label().replace('.', '_'), lo=0, reuse=True)
+        node.dur = ctx.real(_dur_name(node, built), lo=0, reuse=True)
         built.durs[node.label()] = node.dur
         cls = getattr(co, k[1])
         if k[1] == 'VirtualTwoQubitVacant':
@@ -379,9 +387,10 @@ def remap_children(node: Node, copied: CircuitCompositeOperation):
             remap_children(child, child.obj)
 
 
-def build(ctx, prog: dict, share_links: bool = False) -> Built:
+def build(ctx, prog: dict, share_links: bool = False, dur_pool: int = 0) -> Built:
     built = Built()
     built.share_links = share_links
+    built.dur_pool = dur_pool
     circuit, nodes = build_circuit(ctx, prog, built)
     built.circuit = circuit
     built.nodes = nodes
